@@ -1354,7 +1354,7 @@ class Hist(Output):
         F = data.num_inputs
         values = [data.get_scores(self._field, f, verif.axis.No()) for f in range(F)]
 
-        labels = data.get_names()
+        labels = data.get_legend()
         intervals = verif.util.get_intervals(self.bin_type, self.thresholds)
         x = [i.center for i in intervals]
         N = len(intervals)
